@@ -179,24 +179,25 @@ func (o openOpts) boltOptions() *bolt.Options {
 }
 
 type runner struct {
-	w       *bufio.Writer
-	dir     string // scratch dir for the db file and images
-	path    string
-	db      *bolt.DB
-	wtx     *bolt.Tx
-	rtx     map[int]*bolt.Tx
-	stale   *bolt.Bucket // a bucket handle of the last finished write tx
-	imgN    int
-	imgMode string // "none", "commit"
-	ioLog   bool
-	caseID  int
-	opts    openOpts
-	ioN     int
-	failAt  int    // inject errInjected at this I/O call index of the current commit (-1 none)
-	failHit string // what was failed
-	ioCount int
-	ps      int
-	onIO    func(kind string, off int64, data []byte)
+	w        *bufio.Writer
+	dir      string // scratch dir for the db file and images
+	path     string
+	db       *bolt.DB
+	wtx      *bolt.Tx
+	rtx      map[int]*bolt.Tx
+	stale    *bolt.Bucket // a bucket handle of the last finished write tx
+	imgN     int
+	imgMode  string // "none", "commit"
+	ioLog    bool
+	caseID   int
+	opts     openOpts
+	ioN      int
+	failAt   int    // inject errInjected at this I/O call index of the current commit (-1 none)
+	failHit  string // what was failed
+	ioCount  int
+	ps       int
+	poisoned bool
+	onIO     func(kind string, off int64, data []byte)
 }
 
 func newRunner(w *bufio.Writer, dir string, caseID int) *runner {
@@ -289,6 +290,7 @@ func (r *runner) exec(line string) (cont bool) {
 	defer func() {
 		if p := recover(); p != nil {
 			r.res("panic %s", strings.ReplaceAll(fmt.Sprint(p), " ", "_"))
+			r.poisoned = true // locks may still be held: the database is abandoned, not closed
 			cont = false
 		}
 	}()
@@ -726,6 +728,10 @@ func (r *runner) execAPI(tx *bolt.Tx, api, pathS string, a []string) {
 }
 
 func (r *runner) finish() {
+	if r.poisoned {
+		os.Remove(r.path)
+		return
+	}
 	for _, t := range r.rtx {
 		_ = t.Rollback()
 	}
